@@ -1366,11 +1366,17 @@ def check_C18(ctx):
         corr(ctx, be + ':histories', hl, lambda ln, o: o, lib=lib, describe=desc, genuine=(lambda ln, a, b: ' K' in a and a.split(' K')[1] != b.split(' K')[-1]) if be == 'idnkit' else False,
              nontrivial=lambda ln, o: ' R' in o)
         outs[be] = tuple(vlib.run_both(lib, ctx.snap, X)[0] for X in (el, ul, hl, jl))
+        # the same composers built with -DEAV_EXTRA (each back end has its own copy of is_6531_email): lpart / domain strings and allocation counts
+        libx = ctx.snap.lib(backend=be, extra=True)
+        elx = sub(ctx, el, 3)
+        corr(ctx, be + ':addresses(EAV_EXTRA)', elx, lambda ln, o: o, lib=libx, describe=desc, genuine=False, nontrivial=nontriv_addr)
+        outs[be] = outs[be] + (vlib.run_both(libx, ctx.snap, elx)[0],)
         corr(ctx, be + ':policy', jl, lambda ln, o: o, lib=lib, describe=desc, genuine=False, nontrivial=lambda ln, o: True, exhaustive=True)
     nb = 0
     strip = lambda o: o.split(' K')[0]
     for be in ('idn', 'idnkit'):
-        for X, a, b in ((el, outs['idn2'][0], outs[be][0]), (ul, outs['idn2'][1], outs[be][1]), (hl, outs['idn2'][2], outs[be][2]), (jl, outs['idn2'][3], outs[be][3])):
+        for X, a, b in ((el, outs['idn2'][0], outs[be][0]), (ul, outs['idn2'][1], outs[be][1]), (hl, outs['idn2'][2], outs[be][2]), (jl, outs['idn2'][3], outs[be][3]),
+                        (sub(ctx, el, 3), outs['idn2'][4], outs[be][4])):
             for ln, x, y in zip(X, a, b):
                 if strip(x) != strip(y) and nb < 4:
                     nb += 1
